@@ -138,7 +138,13 @@ class RenderContext:
             package_suffix = ".".join(self.output_package_name.split(".")[1:])  # "business" from "pyapis.business"
 
             # Check if this is an incomplete internal module path
-            if package_suffix and logical_module.startswith(f"{package_suffix}."):
+            # (a path that already starts with the full output package is complete, even when the package's first two
+            # components are equal, e.g. "petstore.petstore.models.pet")
+            if (
+                package_suffix
+                and logical_module.startswith(f"{package_suffix}.")
+                and not logical_module.startswith(f"{self.output_package_name}.")
+            ):
                 # This is an incomplete path like "business.models.agent"
                 # Convert to complete path like "pyapis.business.models.agent"
                 logical_module = f"{root_package}.{logical_module}"
@@ -300,7 +306,13 @@ class RenderContext:
             package_suffix = ".".join(self.output_package_name.split(".")[1:])  # "business" from "pyapis.business"
 
             # Check if this is an incomplete internal module path
-            if package_suffix and logical_module.startswith(f"{package_suffix}."):
+            # (a path that already starts with the full output package is complete, even when the package's first two
+            # components are equal, e.g. "petstore.petstore.models.pet")
+            if (
+                package_suffix
+                and logical_module.startswith(f"{package_suffix}.")
+                and not logical_module.startswith(f"{self.output_package_name}.")
+            ):
                 # This is an incomplete path like "business.models.agent"
                 # Convert to complete path like "pyapis.business.models.agent"
                 logical_module = f"{root_package}.{logical_module}"
